@@ -289,7 +289,9 @@ def run_case(case):
     if (v or 0) % 5 == 0 and (fr is None or type(fr).__module__ == "dali.frame"):
         import copy
         import pickle
-        for how, fn in (("copy.copy", copy.copy), ("copy.deepcopy", copy.deepcopy), ("pickle round trip", lambda x: pickle.loads(pickle.dumps(x)))):
+        for how, fn in (("copy.copy", copy.copy), ("copy.deepcopy", copy.deepcopy), ("pickle round trip", lambda x: pickle.loads(pickle.dumps(x))),
+                        ("pickle protocol 0 round trip", lambda x: pickle.loads(pickle.dumps(x, protocol=0))),
+                        ("pickle protocol 1 round trip", lambda x: pickle.loads(pickle.dumps(x, protocol=1)))):
             try:
                 c = fn(r_cls(fr))
                 same = type(c) is r_cls and probe(c) == first and ((c.raw_value is None) == (fr is None)) and \
